@@ -26,7 +26,7 @@ def rt_tasks(tier, kinds, entry='h_rt', classes=None):
     out = []
     for cls in (classes or codec.classes()):
         txt = codec.gen(cls, maxlen=maxlen)
-        j = codec.make_rt_judge(cls, pads)
+        j = codec.make_rt_judge(cls, pads, default_obj=(entry == 'h_default'))
         out.append(Task('%s.%s' % (cls, entry), txt, entry, j, desc='%s: populate every API member symbolically '
                         '(scalars full width, containers length 0..%d with symbolic contents, size/length fields '
                         'stale), write -> read -> write on an in-memory stream' % (cls, maxlen),
